@@ -146,6 +146,9 @@ pub struct SpaceB {
     pub outline: Vec<(f32, f32)>,
     pub x: f32,
     pub y: f32,
+    /// the SPACE's own Z (relative to its storey; HULC writes 0)
+    #[serde(default)]
+    pub z: f32,
     pub azimuth: f32,
     /// CONDITIONED / UNHABITED / UNCONDITIONED ...
     pub stype: String,
@@ -308,7 +311,7 @@ fn space_b(fi: usize, si: usize) -> BoxedStrategy<SpaceB> {
                 // one wall with its own polygon
                 opt(3, (dec2(1.0, 6.0), dec2(1.0, 3.0), dec2(-5.0, 5.0), dec2(-5.0, 5.0), dec2(0.0, 3.0), prop_oneof![Just(0.0f32), Just(90.0f32), Just(180.0f32), Just(270.0f32), dec2(0.0, 359.0)], prop_oneof![3 => Just(90.0f32), 1 => Just(0.0f32), 1 => Just(180.0f32), 1 => dec2(0.0, 180.0)], any::<u16>()).boxed()),
                 (
-                    (prop_oneof![3 => Just(0.0f32), 2 => dec2(-40.0, 40.0)], prop_oneof![3 => Just(0.0f32), 2 => dec2(-40.0, 40.0)], prop_oneof![3 => Just(0.0f32), 1 => Just(180.0f32), 1 => Just(90.0f32), 2 => dec2(0.0, 359.0)]),
+                    (prop_oneof![3 => Just(0.0f32), 2 => dec2(-40.0, 40.0)], prop_oneof![3 => Just(0.0f32), 2 => dec2(-40.0, 40.0)], prop_oneof![3 => Just(0.0f32), 1 => Just(180.0f32), 1 => Just(90.0f32), 2 => dec2(0.0, 359.0)], prop_oneof![5 => Just(0.0f32), 1 => dec2(-1.5, 1.5)]),
                     prop_oneof![4 => Just("CONDITIONED".to_string()), 2 => Just("UNHABITED".to_string()), 1 => Just("UNCONDITIONED".to_string())],
                     opt(1, any::<bool>().boxed()),
                     prop_oneof![4 => Just(1.0f32), 1 => (2u32..6).prop_map(|m| m as f32)],
@@ -318,7 +321,7 @@ fn space_b(fi: usize, si: usize) -> BoxedStrategy<SpaceB> {
                 ),
             )
         })
-        .prop_map(move |(out, edge_walls, floor, ceiling, own_poly, ((x, y, azimuth), stype, insidete, multiplier, height_attr, (space_conds, system_conds, air_changes), (power, veei_obj)))| {
+        .prop_map(move |(out, edge_walls, floor, ceiling, own_poly, ((x, y, azimuth, z), stype, insidete, multiplier, height_attr, (space_conds, system_conds, air_changes), (power, veei_obj)))| {
             let sname = format!("P{:02}_E{:02}", fi + 1, si + 1);
             let mut walls = vec![];
             let mut wn = 0;
@@ -367,6 +370,7 @@ fn space_b(fi: usize, si: usize) -> BoxedStrategy<SpaceB> {
                 outline: out,
                 x,
                 y,
+                z,
                 azimuth,
                 stype,
                 insidete,
@@ -828,6 +832,9 @@ pub fn print_bdl(b: &Bld) -> String {
             }
             if s.y != 0.0 {
                 a.push(kv("Y", f(s.y)));
+            }
+            if s.z != 0.0 {
+                a.push(kv("Z", f(s.z)));
             }
             if s.azimuth != 0.0 {
                 a.push(kv("AZIMUTH", f(s.azimuth)));
